@@ -4,6 +4,7 @@ import (
 	"fmt"
 	"go/token"
 	"go/types"
+	"strings"
 
 	"golang.org/x/tools/go/ssa"
 
@@ -768,5 +769,559 @@ func R53() Rule {
 		if nB == 0 {
 			c.Ok("R53", "b/no-recycled-buffers", token.NoPos, false, "no slice is recycled with [:0] after being stored in a field")
 		}
+	}}
+}
+
+// ---------------------------------------------------------------------------
+// R54: per-iteration scratch values are not carried over from the previous iteration
+// ---------------------------------------------------------------------------
+
+// loopOf returns the set of blocks of the innermost natural loop that contains b
+// (approximated: blocks that can reach b and are reachable from b), or nil.
+func loopOf(b *ssa.BasicBlock) map[*ssa.BasicBlock]bool {
+	fwd := core.ReachableFrom(b, false)
+	if !fwd[b] {
+		return nil
+	}
+	loop := map[*ssa.BasicBlock]bool{}
+	for x := range fwd {
+		if core.ReachableFrom(x, false)[b] {
+			loop[x] = true
+		}
+	}
+	return loop
+}
+
+// escapingUse: v is consumed by something that keeps or forwards it (stored into
+// memory, passed to a call/append, sent, returned) — as opposed to merely compared.
+func escapingUse(v ssa.Value, inLoop map[*ssa.BasicBlock]bool, depth int, seen map[ssa.Value]bool) ssa.Instruction {
+	if depth > 6 || seen[v] {
+		return nil
+	}
+	seen[v] = true
+	for _, r := range core.Referrers(v) {
+		if !inLoop[r.Block()] {
+			continue
+		}
+		switch x := r.(type) {
+		case *ssa.Store:
+			if x.Val == v {
+				return r
+			}
+		case ssa.CallInstruction:
+			if bi, ok := x.Common().Value.(*ssa.Builtin); ok && (bi.Name() == "len" || bi.Name() == "cap") {
+				continue
+			}
+			return r
+		case *ssa.Return, *ssa.Send, *ssa.MapUpdate:
+			return r
+		case *ssa.Convert, *ssa.ChangeType, *ssa.MakeInterface, *ssa.Slice, *ssa.Field:
+			if u := escapingUse(x.(ssa.Value), inLoop, depth+1, seen); u != nil {
+				return u
+			}
+		}
+	}
+	return nil
+}
+
+// R54: a variable declared *outside* a loop that the loop body fills from the
+// current element only on some paths (a switch without default, an `if x != nil`)
+// and then stores or passes on in the same iteration still holds the previous
+// element's value on the other paths: "range 2 inherits the bound of range 1",
+// "source 2 inherits the ifGenerationMatch of source 1".  Accumulators (the new
+// value is computed from the old one) and latches (a constant is assigned) are
+// not scratch values and are not reported.
+func R54() Rule {
+	return Rule{Name: "R54", Run: func(c *core.Ctx) {
+		P := c.P
+		nLoops, nBad := 0, 0
+		for _, pkg := range []string{core.PkgBttest, core.PkgGcsemu, core.PkgGcsutil} {
+			if P.SPkgs[pkg] == nil {
+				continue
+			}
+			for _, fn := range P.SrcFuncs(pkg) {
+				if P.IsGenerated(fn.Pos()) {
+					continue
+				}
+				k := 0
+				// ---- form A: a struct variable (memory cell) outside the loop, fields filled conditionally inside
+				for _, b0 := range fn.Blocks {
+					for _, in := range b0.Instrs {
+						a, ok := in.(*ssa.Alloc)
+						if !ok {
+							continue
+						}
+						st, isStruct := a.Type().(*types.Pointer).Elem().Underlying().(*types.Struct)
+						if !isStruct || a.Comment == "" || core.Captured(a) {
+							continue
+						}
+						_ = st
+						// field stores and whole-variable loads, grouped by loop
+						for _, r := range core.Referrers(a) {
+							ld, isLd := r.(*ssa.UnOp)
+							if !isLd || ld.Op != token.MUL {
+								continue
+							}
+							loop := loopOf(ld.Block())
+							if loop == nil || loop[a.Block()] {
+								continue // not in a loop, or the variable is declared inside it
+							}
+							use := escapingUse(ld, loop, 0, map[ssa.Value]bool{})
+							if use == nil {
+								continue
+							}
+							nLoops++
+							// every field that is assigned somewhere in the loop must be assigned on every path to the load,
+							// or the whole variable must be reset on every path
+							reset := false
+							type fstore struct {
+								field string
+								at    ssa.Instruction
+							}
+							var fstores []fstore
+							for _, r2 := range core.Referrers(a) {
+								switch x := r2.(type) {
+								case *ssa.Store:
+									if x.Addr == ssa.Value(a) && loop[x.Block()] && core.InstrDominates(x, ld) {
+										reset = true
+									}
+								case *ssa.FieldAddr:
+									_, fname, _ := core.FieldName(x)
+									for _, r3 := range core.Referrers(x) {
+										if s3, isSt := r3.(*ssa.Store); isSt && s3.Addr == ssa.Value(x) && loop[s3.Block()] {
+											fstores = append(fstores, fstore{fname, s3})
+										}
+									}
+								}
+							}
+							if reset || len(fstores) == 0 {
+								continue
+							}
+							byField := map[string]bool{} // field -> assigned on every path to the load
+							for _, fs := range fstores {
+								if _, seen := byField[fs.field]; !seen {
+									byField[fs.field] = false
+								}
+								if core.InstrDominates(fs.at, ld) {
+									byField[fs.field] = true
+								}
+							}
+							for f, always := range byField {
+								if always {
+									continue
+								}
+								nBad++
+								k++
+								c.Fn(core.FuncName(fn))
+								c.Bad("R54", fmt.Sprintf("%s/%s.%s/carried-over#%d", core.FuncName(fn), a.Comment, f, k), use.Pos(), "%s is declared outside the loop and its field %s is assigned from the current element only on some paths; on the others this iteration stores / passes on the value left by the previous element", a.Comment, f)
+							}
+						}
+					}
+				}
+				// ---- form B: a register variable (φ at the loop header) left unchanged on some path, overwritten with fresh data on another
+				for _, hb := range fn.Blocks {
+					loop := loopOf(hb)
+					if loop == nil {
+						continue
+					}
+					for _, in := range hb.Instrs {
+						phi, ok := in.(*ssa.Phi)
+						if !ok {
+							break
+						}
+						// header φ: one edge from outside the loop, one from inside
+						var back []ssa.Value
+						outside := 0
+						for i, e := range phi.Edges {
+							if loop[hb.Preds[i]] {
+								back = append(back, e)
+							} else {
+								outside++
+							}
+						}
+						if outside == 0 || len(back) == 0 {
+							continue
+						}
+						// values the back edge can carry: follow φs inside the loop
+						unchanged, fresh := false, false
+						seen := map[ssa.Value]bool{}
+						var walk func(v ssa.Value)
+						dependsOnPhi := func(v ssa.Value) bool {
+							s2 := map[ssa.Value]bool{}
+							var dep func(v ssa.Value, d int) bool
+							dep = func(v ssa.Value, d int) bool {
+								if v == ssa.Value(phi) {
+									return true
+								}
+								if d > 8 || s2[v] {
+									return false
+								}
+								s2[v] = true
+								if inst, ok := v.(ssa.Instruction); ok {
+									for _, op := range inst.Operands(nil) {
+										if *op != nil && dep(*op, d+1) {
+											return true
+										}
+									}
+								}
+								return false
+							}
+							return dep(v, 0)
+						}
+						walk = func(v ssa.Value) {
+							if seen[v] {
+								return
+							}
+							seen[v] = true
+							if v == ssa.Value(phi) {
+								unchanged = true
+								return
+							}
+							if p2, isPhi := v.(*ssa.Phi); isPhi && loop[p2.Block()] {
+								for _, e := range p2.Edges {
+									walk(e)
+								}
+								return
+							}
+							if _, isConst := v.(*ssa.Const); isConst {
+								return // latch / reset to a constant
+							}
+							if !dependsOnPhi(v) {
+								fresh = true
+							}
+						}
+						for _, e := range back {
+							walk(e)
+						}
+						if !unchanged || !fresh {
+							continue
+						}
+						// consumed inside the loop by something that keeps it
+						var use ssa.Instruction
+						for v := range seen {
+							if v == nil {
+								continue
+							}
+							if _, isPhi := v.(*ssa.Phi); isPhi || v == ssa.Value(phi) {
+								if u := escapingUse(v, loop, 0, map[ssa.Value]bool{}); u != nil {
+									use = u
+								}
+							}
+						}
+						if u := escapingUse(phi, loop, 0, map[ssa.Value]bool{}); u != nil {
+							use = u
+						}
+						if use == nil {
+							continue
+						}
+						nLoops++
+						nBad++
+						k++
+						c.Fn(core.FuncName(fn))
+						name := phi.Comment
+						if name == "" {
+							name = "a variable"
+						}
+						c.Bad("R54", fmt.Sprintf("%s/%s/carried-over#%d", core.FuncName(fn), name, k), use.Pos(), "%s is declared outside the loop, assigned from the current element only on some paths, and stored / passed on in the same iteration: on the other paths the previous element's value is used", name)
+					}
+				}
+			}
+		}
+		if nBad == 0 {
+			c.Ok("R54", "no-carried-over-scratch-values", token.NoPos, true, "%d loop-consumed outer variables inspected; none is conditionally filled from the current element and then passed on", nLoops)
+		}
+	}}
+}
+
+// ---------------------------------------------------------------------------
+// R55: engine-level contracts of the Rows / Storage implementations
+// ---------------------------------------------------------------------------
+
+// R55 (a) every reopen closure stored in a leveldbRows (`newFunc`) hands its own
+// `nuke` parameter to the database constructor, and Create opens with nuke = true
+// on every path (a table that is created or cleared starts empty; (b) a Rows method
+// has only the effect its name says: ReplaceOrInsert never deletes from the backend,
+// Delete never inserts, Get/Ascend* do neither (the callers iterate while writing
+// back: a delete inside a btree walk makes it skip rows); (c) the engines take no
+// locks of their own: all serialisation is the table mutex's, which scans release
+// and re-take from inside the iteration callback — an engine lock held across that
+// callback deadlocks against a writer that holds the table lock and waits for the
+// engine; (d) Rows.Close is called only when the server shuts down: a table handle
+// obtained before a DeleteTable is still used by in-flight requests.
+func R55() Rule {
+	return Rule{Name: "R55", Run: func(c *core.Ctx) {
+		P := c.P
+		impls := rowsImpls(P)
+		isImplRecv := func(fn *ssa.Function) bool {
+			r := core.Root(fn)
+			if r.Signature.Recv() == nil {
+				return false
+			}
+			for _, it := range impls {
+				if core.NamedOf(it) != nil && core.NamedOf(it) == core.NamedOf(r.Signature.Recv().Type()) {
+					return true
+				}
+			}
+			return false
+		}
+		// (a) reopen closures and Create
+		nClos := 0
+		for _, fn := range P.SrcFuncs(core.PkgBttest) {
+			if fn.Parent() == nil || len(fn.Params) != 1 || !isBoolType(fn.Params[0].Type()) {
+				continue
+			}
+			for _, ci := range core.AllCalls(fn) {
+				if ci.Static == nil || (core.FuncName(ci.Static) != "newDiskDb" && core.FuncName(ci.Static) != "newMemDb") {
+					continue
+				}
+				if core.FuncName(ci.Static) != "newDiskDb" {
+					continue
+				}
+				nClos++
+				c.Fn(core.FuncName(fn))
+				arg := ci.Common.Args[len(ci.Common.Args)-1]
+				c.Check(core.Resolve(arg) == ssa.Value(fn.Params[0]), "R55", fmt.Sprintf("a/%s/reopen-passes-nuke", core.FuncName(fn)), ci.Instr.Pos(), "the reopen closure hands its nuke parameter to the constructor", "the reopen closure does not pass its nuke parameter on: Clear() (drop all rows) reopens the same directory without wiping it — the rows stay")
+			}
+		}
+		for _, name := range []string{"LeveldbDiskStorage.Create"} {
+			fn := P.Func(core.PkgBttest, name)
+			if fn == nil || fn.Blocks == nil {
+				continue
+			}
+			scope := P.Scope(fn, func(f *ssa.Function) bool {
+				return core.PkgPathOf(f) != core.PkgBttest || core.FuncName(f) == "newDiskDb"
+			})
+			okNuke, n := true, 0
+			for _, f := range scope {
+				for _, ci := range core.AllCalls(f) {
+					// the initial open: a call of a func(bool) *leveldb.DB value, or of the constructor, outside the reopen closure
+					var arg ssa.Value
+					if ci.Method == nil && len(ci.Common.Args) == 1 && isBoolType(ci.Common.Args[0].Type()) && (ci.Static == nil || ci.Static.Parent() != nil) {
+						arg = ci.Common.Args[0] // the reopen closure (or a variable holding it) called directly
+					} else if ci.Static != nil && core.FuncName(ci.Static) == "newDiskDb" && !(f.Parent() != nil && len(f.Params) == 1 && isBoolType(f.Params[0].Type())) {
+						arg = ci.Common.Args[len(ci.Common.Args)-1]
+					}
+					if arg == nil {
+						continue
+					}
+					n++
+					if !P.AllOrigins(arg, setOf(scope), func(o ssa.Value) bool { bv, isB := core.ConstBool(o); return isB && bv }) {
+						okNuke = false
+					}
+				}
+			}
+			c.Check(okNuke && n > 0, "R55", "a/"+name+"/opens-with-nuke", fn.Pos(), "a created table always starts from a wiped directory", "Create does not (always) wipe the table's row directory: a table re-created after DeleteTable comes back with the deleted table's rows")
+		}
+		// (b) effects per Rows method
+		nEff := 0
+		for _, fn := range P.SrcFuncs(core.PkgBttest) {
+			if fn.Parent() != nil || !isImplRecv(fn) {
+				continue
+			}
+			m := fn.Name()
+			var forbid []string
+			switch {
+			case m == "ReplaceOrInsert":
+				forbid = []string{"Delete", "Clear"}
+			case m == "Delete":
+				forbid = []string{"ReplaceOrInsert", "Put"}
+			case m == "Get" || strings.HasPrefix(m, "Ascend"):
+				forbid = []string{"ReplaceOrInsert", "Put", "Delete", "Clear"}
+			default:
+				continue
+			}
+			nEff++
+			c.Fn(core.FuncName(fn))
+			var bad *core.CallInfo
+			transitiveCalls(P, fn, map[*ssa.Function]bool{}, func(from *ssa.Function, ci *core.CallInfo) {
+				if ci.Static == nil || ci.Static.Pkg == nil {
+					return
+				}
+				path := ci.Static.Pkg.Pkg.Path()
+				if path != pkgBtree && path != pkgLdb {
+					return
+				}
+				for _, f := range forbid {
+					if ci.Static.Name() == f {
+						bad = ci
+					}
+				}
+			})
+			construct := fmt.Sprintf("b/%s/only-its-own-effect", core.FuncName(fn))
+			if bad != nil {
+				c.Bad("R55", construct, bad.Instr.Pos(), "%s also performs a backend %s: callers write rows back from inside an iteration, where removing an item makes the btree walk skip rows (and the engines then disagree)", core.FuncName(fn), bad.Static.Name())
+			} else {
+				c.Ok("R55", construct, fn.Pos(), true, "no foreign backend effect")
+			}
+		}
+		// (c) engines take no locks
+		nLock := 0
+		for _, fn := range P.SrcFuncs(core.PkgBttest) {
+			if !isImplRecv(fn) {
+				continue
+			}
+			for _, ci := range core.AllCalls(fn) {
+				if op, ok := lockOpOf(ci); ok && op.acq {
+					nLock++
+					c.Bad("R55", fmt.Sprintf("c/%s/engine-lock#%d", core.FuncName(fn), nLock), ci.Instr.Pos(), "the storage engine takes a lock of its own (%s): scans call back into code that releases and re-takes the table lock, so a writer holding the table lock and waiting for the engine lock deadlocks with the scan", op.lock)
+				}
+			}
+		}
+		if nLock == 0 {
+			c.Ok("R55", "c/engines-take-no-locks", token.NoPos, true, "no mutex is acquired inside a Rows implementation")
+		}
+		// (d) who may close a table's rows
+		nClose := 0
+		for _, fn := range P.SrcFuncs(core.PkgBttest) {
+			for _, ci := range core.AllCalls(fn) {
+				if !isRowsMethod(ci, "Close") {
+					continue
+				}
+				nClose++
+				root := core.FuncName(core.Root(fn))
+				_, okWho := tableOrHelperOf(P, core.Root(fn), map[string]string{"(*Server).Close": "server shutdown", "(*server).Close": "server shutdown", "(*leveldbRows).Clear": "reopen"})
+				c.Check(okWho, "R55", fmt.Sprintf("d/%s/closes-rows", root), ci.Instr.Pos(), "rows are closed at server shutdown only", "a table's rows are closed outside server shutdown: requests that looked the table up earlier (or a scan that released the lock to stream a message) continue on a closed handle and panic the process")
+			}
+		}
+		if nClos < 1 || nEff < 8 {
+			c.Unknown("R55", "floor", token.NoPos, "only %d reopen closures / %d Rows methods found", nClos, nEff)
+		}
+		_ = nClose
+	}}
+}
+
+// ---------------------------------------------------------------------------
+// R56: stored memory-store records are immutable; scrubbed fields are recomputed
+// ---------------------------------------------------------------------------
+
+// R56 (a) a memFile that is (or may be) in the tree is never assigned to: readers
+// (Get, GetMeta, find) hand the stored record out without holding the bucket lock,
+// which is only sound because records are replaced, never updated — an in-place
+// field store is a torn read for a concurrent GET and changes the *source* of a
+// copy; (b) every field ScrubMeta clears before a record is stored is recomputed by
+// InitMetaWithUrls when it is served (a field scrubbed but not recomputed is served
+// empty by the store that does not set it otherwise).
+func R56() Rule {
+	return Rule{Name: "R56", Run: func(c *core.Ctx) {
+		P := c.P
+		n := 0
+		for _, fn := range P.SrcFuncs(core.PkgGcsemu) {
+			r := core.Root(fn)
+			if r.Signature.Recv() == nil || core.NamedOf(r.Signature.Recv().Type()) == nil || core.TName(core.NamedOf(r.Signature.Recv().Type())) != "memstore" {
+				continue
+			}
+			k := 0
+			for _, b := range fn.Blocks {
+				for _, in := range b.Instrs {
+					st, ok := in.(*ssa.Store)
+					if !ok {
+						continue
+					}
+					base := st.Addr
+					depth := 0
+					for {
+						fa, isFa := base.(*ssa.FieldAddr)
+						if !isFa {
+							break
+						}
+						base = fa.X
+						depth++
+					}
+					if depth == 0 || !core.TypeIs(base.Type(), core.PkgGcsemu, "memFile") {
+						continue
+					}
+					n++
+					if _, fresh := core.Resolve(base).(*ssa.Alloc); fresh {
+						continue // building a new record
+					}
+					k++
+					c.Fn(core.FuncName(fn))
+					c.Bad("R56", fmt.Sprintf("a/%s/in-place-store#%d", core.FuncName(fn), k), st.Pos(), "a field of a stored record (%s) is assigned in place: records are handed to readers without the bucket lock and shared with copies — they may only be replaced by a new record", strings.Join(fieldChain(st.Addr), "."))
+				}
+			}
+		}
+		c.Ok("R56", "a/records-are-replaced-not-updated", token.NoPos, true, "%d stores into memFile values inspected (construction only)", n)
+		scrub := P.Func(core.PkgGcsemu, "ScrubMeta")
+		initU := P.Func(core.PkgGcsemu, "InitMetaWithUrls")
+		if scrub == nil || initU == nil {
+			c.Unknown("R56", "b/anchors", token.NoPos, "ScrubMeta / InitMetaWithUrls not found")
+			return
+		}
+		fieldsSet := func(fn *ssa.Function) map[string]bool {
+			out := map[string]bool{}
+			for _, f := range P.Scope(fn, func(f *ssa.Function) bool { return core.PkgPathOf(f) != core.PkgGcsemu }) {
+				for _, b := range f.Blocks {
+					for _, in := range b.Instrs {
+						if st, ok := in.(*ssa.Store); ok {
+							if fa, ok := st.Addr.(*ssa.FieldAddr); ok && core.TypeIs(fa.X.Type(), pkgStorageV1, "Object") {
+								_, fname, _ := core.FieldName(fa)
+								out[fname] = true
+							}
+						}
+					}
+				}
+			}
+			return out
+		}
+		cleared, baked := fieldsSet(scrub), fieldsSet(initU)
+		for _, f := range keysOf(cleared) {
+			c.Check(baked[f], "R56", "b/scrubbed-field-is-recomputed/"+f, scrub.Pos(), "InitMetaWithUrls recomputes "+f, "ScrubMeta clears Object."+f+" before a record is stored, but InitMetaWithUrls does not recompute it when the record is served: the field comes back empty from a store that does not set it itself (the stores disagree)")
+		}
+		if len(cleared) < 3 {
+			c.Unknown("R56", "b/floor", token.NoPos, "only %d fields cleared by ScrubMeta", len(cleared))
+		}
+	}}
+}
+
+// ---------------------------------------------------------------------------
+// R57: validTimestamp rejects sub-millisecond timestamps unconditionally
+// ---------------------------------------------------------------------------
+
+// R57: "a timestamp that is not a whole millisecond is answered with an error"
+// holds for every table: in validTimestamp every path that returns true passes the
+// `ts % 1000 == 0` test (the result is that comparison, or the return is only
+// reachable through its true edge) — not just tables whose definition carries an
+// explicit granularity (CreateTable leaves it unspecified).
+func R57() Rule {
+	return Rule{Name: "R57", Run: func(c *core.Ctx) {
+		P := c.P
+		fn := P.MustFunc(core.PkgBttest, "(*table).validTimestamp")
+		c.Fn("(*table).validTimestamp")
+		isMsTest := func(v ssa.Value) bool {
+			bin, ok := core.Resolve(v).(*ssa.BinOp)
+			if !ok || bin.Op != token.EQL {
+				return false
+			}
+			rem, ok := core.Resolve(bin.X).(*ssa.BinOp)
+			if !ok || rem.Op != token.REM {
+				return false
+			}
+			z, isZ := core.ConstInt(bin.Y)
+			k, isK := core.ConstInt(rem.Y)
+			return isZ && z == 0 && isK && k == 1000
+		}
+		var cut []cfgEdge
+		for _, b := range fn.Blocks {
+			if ifi, ok := b.Instrs[len(b.Instrs)-1].(*ssa.If); ok && isMsTest(ifi.Cond) {
+				cut = append(cut, cfgEdge{b, b.Succs[0]})
+			}
+		}
+		ok, n := true, 0
+		for _, r := range returnsIn(fn) {
+			for _, v := range returnValues(r.Results[0]) {
+				n++
+				if isMsTest(v) {
+					continue
+				}
+				if bv, isB := core.ConstBool(v); isB && !bv {
+					continue
+				}
+				// may be true: only through the test's true edge
+				if len(cut) == 0 || reachableWithoutEdges(fn, r.Block(), cut) {
+					ok = false
+				}
+			}
+		}
+		c.Check(ok && n > 0, "R57", "validTimestamp/whole-milliseconds-on-every-accepting-path", fn.Pos(), "a timestamp is accepted only through the `ts % 1000 == 0` test", "validTimestamp can accept a timestamp without the whole-millisecond test (the test is conditional): sub-millisecond timestamps are stored instead of rejected")
 	}}
 }
